@@ -470,7 +470,7 @@ def scenarios(ctx):
             yield sc
 
 
-def run(ctx):
+def _run_vertical(ctx):
     batch = []
     agg = {}
     for sc in scenarios(ctx):
@@ -552,3 +552,11 @@ def replay(ctx, rp):
     for v in r['viol']:
         print('  monitor:', v)
     return not r['viol']
+
+
+
+def run(ctx):
+    _run_vertical(ctx)
+    # second, independent tie: channel programs on the whole-program machine (whole-trace correspondence)
+    from harness import machine_prop
+    machine_prop.run(ctx, [('channels', 120, 3000, {})], [])
